@@ -15,7 +15,19 @@ from ..core import deep_eq
 from .. import gen
 from ..oracles import linegrammar as G, conformance as CF
 from . import common, pipeline as P
-from .c01 import VIEWS, XML
+from .c01 import VIEWS as _VIEWS01, XML as _XML01
+from .. import dtsupport
+
+# an application key type and datatype that raise a ValueError SUBCLASS and remember the instance: a
+# conversion error must carry that very exception object
+RK, RI = 'vf.dtsupport.remember_key', 'vf.dtsupport.remember_int'
+SK = gen.schema(keytype=RK,
+                types=[gen.stype('ta', [gen.key('ka', RI), gen.key('+', attr='any', dt=RI)], keytype=RK)],
+                items=[gen.multisection('ta', '*', attr='xs'), gen.key('kt', RI), gen.key('+', attr='any')])
+XML = dict(_XML01)
+VIEWS = dict(_VIEWS01)
+XML['SK'] = gen.render(SK)
+VIEWS['SK'] = gen.View(SK)
 
 W2 = ['w', 2]
 V1 = ['v', 1]
@@ -72,6 +84,13 @@ def _layouts(tier):
         ('S2', [['main.conf', [[SS(1), 'kt 5', SS(1)], '%include inc.conf', 'zz top']],
                 ['inc.conf', [[SS(2)], [SS(1), '<ta n1>'], [W2, ' ', V1], '</ta>']]]),
         ('S2', main([['kt 5', SS(1)], [SS(1)], [['x', 3]], 'zz top'])),
+    ]
+    L += [
+        # ---- application key type / datatype: the error carries the very exception they raised
+        ('SK', main(['kt 5', '<ta n1>', [['x', 2], ' ', V1], '  ka 1', '</ta>'])),
+        ('SK', main([[['x', 2], ' ', V1], '<ta/>'])),
+        ('SK', [['main.conf', ['kt 5', '<ta>', '%include inc.conf', '</ta>']],
+                ['inc.conf', ['', ['ka ', V2], [['x', 2], ' 7']]]]),
     ]
     L += [
         # ---- a faulty $ construct in the value of a %define whose name may already be defined
@@ -182,6 +201,7 @@ class C08(Harness):
         import ZConfig
         files = self.files(unit, inp)
         store = {P.BASE + n: ls for n, ls in files}
+        dtsupport.LAST['exc'] = None
         with common.env_scope(common.all_concrete(inp), {}), P.mem_resources(store):
             r = P.run_load(XML[unit['schema']], files[0][1],
                            url=None if unit.get('nourl') else P.BASE + files[0][0])
@@ -194,7 +214,11 @@ class C08(Harness):
         extra = None
         if isinstance(e, ZConfig.DataConversionError):
             fam = 'conversion'
-            extra = (e.value, isinstance(e.exception, ValueError))
+            original = isinstance(e.exception, ValueError)
+            if unit['schema'] == 'SK':
+                # identity with the exception object the application's converter raised last
+                original = e.exception is dtsupport.LAST['exc']
+            extra = (e.value, original)
         elif isinstance(e, ZConfig.SubstitutionSyntaxError):
             fam = 'subst-syntax'
         elif isinstance(e, ZConfig.ConfigurationSyntaxError):
